@@ -285,9 +285,15 @@ def l1_check(run: Run, prop=None):
                 stats["l1_multi"] += 1
             matched = False
             expected = []
+            undecidable = False
             for asg in asgs:
                 res, o = quiescent_eval(world, sc, op, asg, qres)
                 stats["l1_evals"] += 1
+                if res is Skip:
+                    # an input is the result of an earlier op of this client that was itself
+                    # reported (or could not be decided): nothing to compare against
+                    undecidable = True
+                    break
                 expected.append({"regs": asg, "obs": o})
                 if o == rec["obs"]:
                     # later ops of this client take the *simulated* result object as input, so that
@@ -299,6 +305,9 @@ def l1_check(run: Run, prop=None):
             if matched:
                 continue
             qres.append(Skip)
+            if undecidable:
+                stats["l1_unchecked"] += 1
+                continue
             if relaxed and isinstance(rec["obs"], list) and rec["obs"] and rec["obs"][0] == "EXC":
                 stats["l1_relaxed"] += 1
                 continue
